@@ -1,4 +1,10 @@
 SPECIFICATION SpecEq
-INVARIANT Inv
+INVARIANT I_MutexOwnership
+INVARIANT I_MutexExclusion
+INVARIANT I_SemConservation
+INVARIANT I_CvConsistency
+INVARIANT I_BarrierGroups
+INVARIANT I_PhaseConsistency
+INVARIANT I_CommExactlyOnce
 INVARIANT ProgressInv
 POSTCONDITION AtEnd
